@@ -35,6 +35,9 @@ Definition parse_ent (f : bytes) : rent :=
      t_size := numN (nthb 11 v); t_ecid := numN (nthb 12 v); t_elen := numN (nthb 13 v); t_path := nthb 14 v |}.
 
 Definition is_dir_kind (k : byte) : bool := beqb k x64 || beqb k x72.   (* d r *)
+(* regular-file kinds whose permission bits have the owner's execute bit (harness: FILE_KINDS):
+   x 0755, H 0700, J 0744, K 0754; not f 0644, A 0654, B 0645, C 0655, E 0641, G 0611, I 0600 *)
+Definition owner_exec (k : byte) : bool := beqb k x78 || beqb k x48 || beqb k x4a || beqb k x4b.
 
 (* ---- environment from the description ------------------------------------------------- *)
 Definition T0 : N := 1700000000.
@@ -53,7 +56,7 @@ Definition lookup (ns : list rnode) (p : bytes) : lstat :=
   | None => LMissing
   | Some n =>
       if is_dir_kind (r_kind n) then LDir
-      else LNode (if beqb (r_kind n) x6c then KLink else KFile (beqb (r_kind n) x78)) (node_stat n) (r_len n)
+      else LNode (if beqb (r_kind n) x6c then KLink else KFile (owner_exec (r_kind n))) (node_stat n) (r_len n)
   end.
 
 Definition mode_of (b : byte) : emode :=
